@@ -17,7 +17,7 @@ RULE = ('directions: boundary grid (every 5 deg) and seeded-random points with h
         'both projection paths. distinct_nontrivial = distinct inputs (quantised to 1e-12) that reached a monitor.')
 ASSUMPTIONS = ['float32 accuracy bound of the statement taken as 1e-6 rad (measured worst values are in the evidence)',
                'V2 reference: light plane through the rotation axis direction tilted by 30 deg, n(a).d = 0']
-REQUIRED = ['mon.vector_answers_modified_by_the_caller', 'mon.list_helpers_asked_again_after_the_list_changed', 'mon.v1_v2_v1', 'mon.v1_cart_v1', 'mon.v1_proj_v1', 'mon.v2_plane_reference', 'mon.pose_inverse',
+REQUIRED = ['mon.poses_from_quaternions_not_of_unit_length', 'mon.vector_answers_modified_by_the_caller', 'mon.list_helpers_asked_again_after_the_list_changed', 'mon.v1_v2_v1', 'mon.v1_cart_v1', 'mon.v1_proj_v1', 'mon.v2_plane_reference', 'mon.pose_inverse',
             'mon.pose_associativity', 'mon.pose_views', 'mon.solver_projection', 'mon.solver_zero_rotation', 'mon.ippe_axes', 'mon.pose_laws_after_history',
             'mon.solver_pairs_with_crazyflie_behind_the_base_station', 'mon.solver_non_canonical_rotation_vectors']
 
@@ -246,6 +246,17 @@ def run_poses(desc, ctx):
         worst = max(worst, e8, e9, e10, e11)
         if max(e8, e9, e10, e11) > 1e-9:
             ctx.violate('pose:views-disagree-or-not-orthonormal', {'errors': [e8, e9, e10, e11]})
+        # a quaternion need not be handed over at unit length (a sum, an average, the shorthand (0, 0, 1, 1) for a
+        # quarter turn): it denotes the same rotation, and the pose built from it is a rigid motion all the same
+        kq = rnd.choice((2.0, 0.5, -3.0, rnd.uniform(0.05, 20.0)))
+        P4 = Pose.from_quat(qa * kq, ta)
+        M4 = P4.rot_matrix
+        ctx.count('mon.poses_from_quaternions_not_of_unit_length')
+        e12 = float(np.linalg.norm(M4 - Ra) + np.linalg.norm(M4.T @ M4 - np.eye(3)) +
+                    np.linalg.norm(P4.inv_rotate_translate(P4.rotate_translate(x)) - x))
+        if e12 > 1e-9 * max(1.0, float(np.linalg.norm(x))):
+            ctx.violate('pose:from-a-quaternion-not-of-unit-length-differs-from-the-rotation-it-denotes',
+                        {'scale': kq, 'error': e12, 'quaternion': (qa * kq).tolist()})
         # the laws hold for a pose with a history too: every view and transform used, then (a shallow copy of) it
         # rescaled the way the system scaler does, then the laws again on the rescaled pose
         if _ % 3 == 0:
